@@ -71,6 +71,62 @@ def cvd(r0, a, b, c, t):
     return r0 * (1 + a * t + b * t * t + (c * (t - 100) * t ** 3 if t < 0 else 0.0))
 
 
+def file_level(ctx, cases, counts):
+    """Each recorded sensor case is written as channel properties with TdmsWriter and read back through TdmsFile (eager and lazy):
+    the sensor scale alone on the raw voltage; behind a Linear scale 0 (device units -> volts, dyadic slope/intercept) with input
+    source 0; and at index 2 behind two Linear scales with input source 1 (scale 0 is then a decoy). The expected value is the
+    quantity that produced the voltage."""
+    import io
+    from nptdms import TdmsFile, TdmsWriter, ChannelObject
+    rnd = ctx.rnd
+    out = []
+    counts["file_level"] = 0
+    for kind, props, src_name, v, expect in cases:
+        wiring = rnd.choice(["direct", "chain0", "chain1"])
+        m, b = rnd.choice([0.5, 2.0, 0.25, 4.0, -2.0]), rnd.choice([0.0, 0.5, -0.25, 1.0])
+        P = {}
+        if wiring == "direct":
+            idx, raw, src = 0, v, 0xFFFFFFFF
+        elif wiring == "chain0":
+            idx, raw, src = 1, (v - b) / m, 0
+            P.update({"NI_Scale[0]_Scale_Type": "Linear", "NI_Scale[0]_Linear_Slope": m, "NI_Scale[0]_Linear_Y_Intercept": b,
+                      "NI_Scale[0]_Linear_Input_Source": np.uint32(0xFFFFFFFF)})
+        else:
+            idx, raw, src = 2, (v - b) / m, 1
+            P.update({"NI_Scale[0]_Scale_Type": "Linear", "NI_Scale[0]_Linear_Slope": 1000.0, "NI_Scale[0]_Linear_Y_Intercept": 77.0,
+                      "NI_Scale[0]_Linear_Input_Source": np.uint32(0xFFFFFFFF),
+                      "NI_Scale[1]_Scale_Type": "Linear", "NI_Scale[1]_Linear_Slope": m, "NI_Scale[1]_Linear_Y_Intercept": b,
+                      "NI_Scale[1]_Linear_Input_Source": np.uint32(0xFFFFFFFF)})
+        pre = "NI_Scale[%d]_" % idx
+        P[pre + "Scale_Type"] = kind
+        for k, val in props.items():
+            P[pre + k] = (np.int32(val) if isinstance(val, int) else float(val))
+        P[pre + src_name] = np.uint32(src)
+        P["NI_Number_Of_Scales"] = np.uint32(idx + 1)
+        P["NI_Scaling_Status"] = "unscaled"
+        buf = io.BytesIO()
+        rp = dict(kind="file-level", scale=kind, wiring=wiring, properties={k: (str(x) if isinstance(x, str) else float(x)) for k, x in P.items()}, raw=raw, V=v, expected=expect)
+        try:
+            with TdmsWriter(buf) as w:
+                w.write_segment([ChannelObject("g", "c", np.array([raw, raw], dtype=np.float64), P)])
+            buf.seek(0)
+            got = float(TdmsFile.read(buf)["g"]["c"][:][1])
+            buf.seek(0)
+            with TdmsFile.open(buf) as f:
+                lazy = float(f["g"]["c"][1])
+        except Exception as ex:  # noqa
+            out.append(Violation("%s scale (%s) through a file raised %s: %s" % (kind, wiring, type(ex).__name__, ex), rp))
+            continue
+        counts["file_level"] += 1
+        tol = 2e-6 if wiring != "direct" else TOL      # one extra rounding in (v - b) / m * m + b
+        ok = (abs(got - expect) <= tol * max(abs(expect), 1e-6)) if kind == "Strain" else close(got, expect, tol)
+        if not ok or not (lazy == got or (lazy != lazy and got != got)):
+            out.append(Violation("%s scale read through a file (%s wiring): channel[:] = %r (lazy %r), the quantity that produced the voltage is %r" % (kind, wiring, got, lazy, expect), rp))
+        if len(out) > 3:
+            break
+    return out
+
+
 def run(ctx):
     ctx.nptdms()
     from nptdms import scaling as sc
@@ -86,6 +142,7 @@ def run(ctx):
             ctx.notes.append("SensorsEval unavailable: %r" % ex)
     n = ctx.n(400, 20000)
     RAW = 0xFFFFFFFF
+    file_cases = []     # (scale type, properties without prefix, name of the input source property, voltage, expected quantity)
     try:
         # ---------------- RTD
         for _ in range(n):
@@ -101,6 +158,9 @@ def run(ctx):
             v = cur * (cvd(r0, a, b, c, t) + leadterm)
             counts["rtd"] += 1
             distinct.add(("rtd", r0, cfg, round(t, 6)))
+            if counts["rtd"] % 6 == 0:
+                file_cases.append(("RTD", {"RTD_Current_Excitation": cur, "RTD_R0_Nominal_Resistance": r0, "RTD_A": a, "RTD_B": b, "RTD_C": c,
+                                           "RTD_Lead_Wire_Resistance": lead, "RTD_Resistance_Configuration": cfg}, "RTD_Input_Source", v, t))
             try:
                 got = float(sc.RtdScaling(cur, r0, a, b, c, lead, cfg, RAW).scale(np.array([v]))[0])
             except Exception as ex:
@@ -141,6 +201,11 @@ def run(ctx):
                 v = vex * leg / (r1 + leg)
                 s = sc.ThermistorScaling(sc.VOLTAGE_EXCITATION, vex, cfg, r1, lead, a, b, c, off, RAW)
                 label = "voltage"
+            if counts["thermistor"] % 6 == 0:
+                file_cases.append(("Thermistor", {"Thermistor_Excitation_Type": s.excitation_type, "Thermistor_Excitation_Value": s.excitation_value,
+                                                  "Thermistor_Resistance_Configuration": cfg, "Thermistor_R1_Reference_Resistance": s.r1_reference_resistance,
+                                                  "Thermistor_Lead_Wire_Resistance": lead, "Thermistor_A": a, "Thermistor_B": b, "Thermistor_C": c,
+                                                  "Thermistor_Temperature_Offset": off}, "Thermistor_Input_Source", v, tk - off))
             got = float(s.scale(np.array([v]))[0])
             if not close(got, tk - off):
                 violations.append(Violation("thermistor (%s excitation, %d-wire): scale(voltage for R=%r) = %r, Steinhart-Hart gives %r" % (label, cfg, R, got, tk - off),
@@ -190,6 +255,10 @@ def run(ctx):
             else:
                 vo = bridge(r0, r0, r0, r0 * (1 + eg)); expect = gain * (1 + lead / rg) * eps
             s = sc.StrainScaling(code, nu, rg, lead, vinit, g, gain, vex, RAW)
+            if counts["strain"] % 6 == 0:
+                file_cases.append(("Strain", {"Strain_Configuration": code, "Strain_Poisson_Ratio": nu, "Strain_Gage_Resistance": rg, "Strain_Lead_Wire_Resistance": lead,
+                                              "Strain_Initial_Bridge_Voltage": vinit, "Strain_Gage_Factor": g, "Strain_Bridge_Shunt_Calibration_Gain_Adjustment": gain,
+                                              "Strain_Voltage_Excitation": vex}, "Strain_Input_Source", vo + vinit, expect))
             got = float(s.scale(np.array([vo + vinit]))[0])
             counts["strain"] += 1
             distinct.add(("strain", code, round(eps, 9), lead != 0, gain != 1, vinit != 0))
@@ -249,6 +318,11 @@ def run(ctx):
                     disagreements.append(dict(what="table model=%s real=%r" % (m, got)))
             if len(violations) > 5:
                 break
+        # ---------------- the same cases through files: properties parsed by from_properties, wiring through the scale graph
+        import warnings
+        with warnings.catch_warnings():
+            warnings.simplefilter("ignore")
+            violations += file_level(ctx, file_cases, counts)
     finally:
         if ev is not None:
             ev.close()
@@ -256,7 +330,8 @@ def run(ctx):
                 coverage=dict(evaluations=sum(counts.values()), distinct_nontrivial=len(distinct),
                               rule="random physically meaningful parameter sets: PT100/PT1000-like RTDs (2/3/4-wire, lead 0-10 ohm, T in [-200, 850] incl. the quartic "
                                    "branch and T near 0), NTC thermistors (current and voltage excitation, R in [50, 2e6] ohm), all seven bridge codes with gain, "
-                                   "lead and initial voltage, polynomials of degree <= 5 and tables of 2-6 points on dyadic inputs; distinct_nontrivial = distinct inputs",
+                                   "lead and initial voltage, polynomials of degree <= 5 and tables of 2-6 points on dyadic inputs; every sixth sensor case additionally written as NI_Scale properties "
+                                   "with TdmsWriter and read back eagerly and lazily (sensor alone / behind Linear scale 0 / at index 2 behind scale 1); distinct_nontrivial = distinct inputs",
                               samples=[dict(kind="rtd", r0=100.0, a=3.9083e-3, b=-5.775e-7, c=-4.183e-12, T=-50.0)], counts=counts))
 
 
